@@ -7,7 +7,7 @@
 
 use verifsim::driver::{harness_error, Args};
 use verifsim::json::Json;
-use verifsim::seam_engine;
+use verifsim::{history_engine, seam_engine};
 
 fn main() {
     let argv: Vec<String> = std::env::args().skip(1).collect();
@@ -22,6 +22,9 @@ fn main() {
             let tier = args.positional.get(1).map(|s| s.as_str()).unwrap_or("quick");
             if let Some(p) = seam_engine::prop_from_id(id) {
                 seam_engine::check(p, tier, &exe)
+            } else if id == "C04" {
+                let mt = args.named.get("mt").map(std::path::PathBuf::from);
+                history_engine::check(tier, &exe, mt.as_deref())
             } else {
                 harness_error(&format!("unknown property {}", id))
             }
@@ -30,6 +33,9 @@ fn main() {
             let id = args.positional.get(0).map(|s| s.as_str()).unwrap_or("");
             if let Some(p) = seam_engine::prop_from_id(id) {
                 seam_engine::worker(p, &args);
+                0
+            } else if id == "C04" {
+                history_engine::worker(&args);
                 0
             } else {
                 harness_error(&format!("unknown property {}", id))
@@ -41,6 +47,7 @@ fn main() {
             let j = Json::parse(&text).unwrap_or_else(|e| harness_error(&format!("{}: {}", path, e)));
             match j.get("engine").and_then(|e| e.as_str()) {
                 Some("seam") => seam_engine::replay(&j),
+                Some("history") => history_engine::replay(&j),
                 other => harness_error(&format!("replay: engine {:?} is not served by this binary", other)),
             }
         },
@@ -51,6 +58,11 @@ fn main() {
             if seam_engine::prop_from_id(id).is_some() {
                 let case = seam_engine::gen_case(seed);
                 println!("{}", case.to_json().to_pretty());
+            } else if id == "C04" {
+                let mut d = verifsim::refint::Delegate::new();
+                for l in history_engine::gen_for_seed(seed, &mut d).render() {
+                    println!("{}", l);
+                }
             }
             0
         },
